@@ -67,8 +67,9 @@ def mps_index(kind):
                ('stored_segment', '1 <= result[0] and result[0] <= n')]
         gs = REPG.gsi(tc, '(result[0] - (seg_num - sn))', '(-result[1])',
                       '(-result[1] - S(result[0] - (seg_num - sn) - 1))')
-        raises = {'ValueError': f'{m0} + (seg_num - sn) > n'}
-        req_extra = [('region_number_not_before_start', 'seg_num >= sn')]
+        # a number before the period's first segment is refused like one past its end (ValueError -> 404)
+        raises = {'ValueError': f'seg_num < sn or {m0} + (seg_num - sn) > n'}
+        req_extra = []
     else:
         ens = [('segment', f'result[0] == {m0}'), ('stored_segment', '1 <= result[0] and result[0] <= n'),
                ('number_echo', 'is_none(result[2])')]
